@@ -4,6 +4,8 @@ import (
 	"fmt"
 	"strings"
 
+	"github.com/dolthub/dolt/go/store/nbs"
+
 	"verif/harness/internal/hx"
 )
 
@@ -11,6 +13,7 @@ import (
 type Profile struct {
 	Name      string
 	RefsRich  bool // C07: many chunks carry refs of every class (present / pending / never / later)
+	Conjoin   bool // C02: ConjoinTableFiles on handles whose view has >= 2 tables (often stale)
 	Hooks     bool // C02: nest other handles' ops inside manifest.Update / before manifest reads
 	MaxK      int
 	AddTables bool
@@ -226,6 +229,8 @@ func (g *Gen) Step() {
 				op.Hook = "read"
 				op.Nested = g.nestedOps(h, "read")
 			}
+		case x < 85 && g.P.Conjoin && len(nbs.VerifManUpstream(w.HS[h]).Specs) >= 2:
+			op = Op{Kind: "conjoin", H: h}
 		case x < 79:
 			op = Op{Kind: "root", H: h}
 		case x < 85:
